@@ -231,6 +231,11 @@ impl<'a> Parser<'a> {
             }
             Token::Num(i) => {
                 self.get_next_token()?;
+                if matches!(self.current_token, Token::Num(_)) {
+                    return Err(ParseError::UnableToParse(
+                        "A number cannot directly follow a number".to_string(),
+                    ));
+                }
                 self.implicit_multiply(Node::Number(i))
             }
             Token::Pi => {
